@@ -20,6 +20,15 @@ thread_local! {
     static ALLOC_COUNT: Cell<u64> = const { Cell::new(0) };
 }
 
+/// When set, freed memory is overwritten before it goes back to the system allocator,
+/// so that a read through a stale pointer sees garbage (a tracked value's magic number
+/// no longer matches) instead of the old, plausible contents.
+pub static POISON: std::sync::atomic::AtomicBool = std::sync::atomic::AtomicBool::new(false);
+
+pub fn poison_freed_memory(on: bool) {
+    POISON.store(on, std::sync::atomic::Ordering::SeqCst);
+}
+
 unsafe impl std::alloc::GlobalAlloc for CountingAlloc {
     unsafe fn alloc(&self, l: std::alloc::Layout) -> *mut u8 {
         let p = unsafe { std::alloc::System.alloc(l) };
@@ -32,6 +41,9 @@ unsafe impl std::alloc::GlobalAlloc for CountingAlloc {
         p
     }
     unsafe fn dealloc(&self, p: *mut u8, l: std::alloc::Layout) {
+        if POISON.load(std::sync::atomic::Ordering::Relaxed) {
+            unsafe { std::ptr::write_bytes(p, 0xDE, l.size()) };
+        }
         unsafe { std::alloc::System.dealloc(p, l) };
         let _ = ALLOC_ON.try_with(|on| {
             if on.get() {
@@ -40,7 +52,21 @@ unsafe impl std::alloc::GlobalAlloc for CountingAlloc {
         });
     }
     unsafe fn realloc(&self, p: *mut u8, l: std::alloc::Layout, new: usize) -> *mut u8 {
-        let q = unsafe { std::alloc::System.realloc(p, l, new) };
+        let q = if POISON.load(std::sync::atomic::Ordering::Relaxed) {
+            // always move, so that the old block can be overwritten
+            let nl = unsafe { std::alloc::Layout::from_size_align_unchecked(new, l.align()) };
+            let q = unsafe { std::alloc::System.alloc(nl) };
+            if !q.is_null() {
+                unsafe {
+                    std::ptr::copy_nonoverlapping(p, q, l.size().min(new));
+                    std::ptr::write_bytes(p, 0xDE, l.size());
+                    std::alloc::System.dealloc(p, l);
+                }
+            }
+            q
+        } else {
+            unsafe { std::alloc::System.realloc(p, l, new) }
+        };
         let _ = ALLOC_ON.try_with(|on| {
             if on.get() {
                 let _ = ALLOC_NET.try_with(|n| n.set(n.get() + new as i64 - l.size() as i64));
@@ -202,8 +228,19 @@ impl Clone for Tr {
     }
 }
 
+/// extra work per element comparison (C16 stress: a slow user PartialEq widens race windows)
+static EQ_SPIN: std::sync::atomic::AtomicU32 = std::sync::atomic::AtomicU32::new(0);
+
+pub fn set_eq_spin(n: u32) {
+    EQ_SPIN.store(n, std::sync::atomic::Ordering::SeqCst);
+}
+
 impl PartialEq for Tr {
     fn eq(&self, other: &Self) -> bool {
+        let n = EQ_SPIN.load(std::sync::atomic::Ordering::Relaxed);
+        for _ in 0..n {
+            std::hint::spin_loop();
+        }
         self.touch("eq");
         other.touch("eq");
         self.tag == other.tag
